@@ -1142,6 +1142,11 @@ func (c *dtChannel) close(ctx context.Context) error {
 	}
 	c.lk.Unlock()
 
+	// There is no graphsync request to cancel, so there is nothing to wait for
+	if errch == nil {
+		return nil
+	}
+
 	// Wait for the cancel message to complete
 	select {
 	case err := <-errch:
